@@ -9,7 +9,7 @@ use crate::host::*;
 use crate::util::*;
 use std::panic::{catch_unwind, AssertUnwindSafe};
 
-const RATES: [usize; 7] = [8000, 11025, 22050, 44100, 48000, 96000, 384000];
+const RATES: [usize; 10] = [8000, 11025, 12800, 22050, 44100, 48000, 51200, 96000, 204800, 384000];
 
 #[derive(Clone, Debug, PartialEq)]
 enum Ev {
@@ -893,8 +893,8 @@ fn record(model: &mut Model, rep: &mut Report, text: String, d: Disagreement) {
 pub fn run(o: &Opts) -> Report {
     let mut rep = Report::new("C19");
     rep.rule = "(A) hook-driven schedules on a real Emulator (48K and 128K, sound on): random waits (1..30 CPU-like, up to 400, up to 3000, \
-some landing exactly on the frame end) interleaved with OUTs to port 0xFE (ear/mic toggles, bursts inside one sample period) at 7 sample \
-rates x 3 host policies (drain at every boundary / random pops and drains / never) x volumes 0..255 x beeper on/off x AY enabled (silent), the host switching the AY contribution on/off at frame boundaries (set_ay_enabled); \
+some landing exactly on the frame end) interleaved with OUTs to port 0xFE (ear/mic toggles, bursts inside one sample period) at 10 sample \
+rates (three of them with a power-of-two number of samples per frame) x 3 host policies (drain at every boundary / random pops and drains / never) x volumes 0..255 x beeper on/off x AY enabled (silent), the host switching the AY contribution on/off at frame boundaries (set_ay_enabled); \
 every popped sample is decoded to its beeper level and compared with the Lean model; the spec adjudicates: exactly floor(rate/50) samples \
 per frame (always), queue < 2*spf (never), every sample equals a speaker level within one sample period of k/spf, |sample| <= 0.6*vol/200. \
 (B) a real Z80 program toggling the speaker, run by emulate_frames (FrameCount(1)) and drained after every call: counts exactly, edge times \
